@@ -281,6 +281,8 @@ def aconds(k):
         ("7 not in ia", lambda d: 7 not in d.ia, lambda ia, sa, fa: 7 not in ia),
         ("[1, 2] in ia", lambda d: [1, 2] in d.ia, lambda ia, sa, fa: set([1, 2]) <= set(ia)),
         ("[3, 9] not in ia", lambda d: [3, 9] not in d.ia, lambda ia, sa, fa: not set([3, 9]) <= set(ia)),
+        ("[1, 1, 1, 1, 1] in ia (duplicates, longer than the array)", lambda d: [1, 1, 1, 1, 1] in d.ia, lambda ia, sa, fa: 1 in ia),
+        ("[2, 1, 2, 1, 2, 1] not in ia", lambda d: [2, 1, 2, 1, 2, 1] not in d.ia, lambda ia, sa, fa: not set([1, 2]) <= set(ia)),
         ("len(ia) == 4", lambda d: len(d.ia) == 4, lambda ia, sa, fa: len(ia) == 4),
         ("len(ia) > k", lambda d: len(d.ia) > k, lambda ia, sa, fa: len(ia) > k),
         ("truthy ia", lambda d: d.ia, lambda ia, sa, fa: bool(ia)),
@@ -440,6 +442,13 @@ def _pf_case(cfg, values):
         for x in (1, 'a', '', 9):
             if sq.py_array_contains(text, x) != (x in arr): bad.append(('contains', x))
         if sq.py_array_index(None, 0) is not None or sq.py_array_length(None) is not None: bad.append('null')
+        # `items in array`: every listed item is in the array - duplicates in the list do not matter, nor does its length
+        import itertools
+        pool = list(dict.fromkeys(arr + [1, 'a', 9]))[:4]
+        for n in range(0, 4):
+            for items in itertools.product(pool, repeat=n):
+                if bool(sq.py_array_subset(text, json.dumps(list(items)))) != all(x in arr for x in items): bad.append(('subset', items))
+        if sq.py_array_subset(text, None) is not None: bad.append('subset of NULL')
         return bad
     return Case(call, {}, [])
 
@@ -450,7 +459,7 @@ CONTRACTS = [
     Contract('json_path_round_trip', ['pony.orm.sqlbuilding:SQLBuilder.eval_json_path', 'pony.orm.dbproviders.sqlite:_parse_path'], _jp_configs, _jp_case,
              [('path_text_parses_back_to_the_keys', _jp_spec)], level='bounded', bound='15 key shapes, paths of length 1 and 2'),
     Contract('py_array_functions', ['pony.orm.dbproviders.sqlite:py_array_index', 'pony.orm.dbproviders.sqlite:py_array_slice', 'pony.orm.dbproviders.sqlite:py_array_length',
-                                    'pony.orm.dbproviders.sqlite:py_array_contains'], _pf_configs, _pf_case,
+                                    'pony.orm.dbproviders.sqlite:py_array_contains', 'pony.orm.dbproviders.sqlite:py_array_subset'], _pf_configs, _pf_case,
              [('equal_to_the_python_operation_null_when_python_raises', lambda cfg, i, path: path.outcome == 'ret' and path.value == [])], level='bounded',
              bound='4 arrays, indexes and slice bounds in -6..6 and None'),
     Contract('query_vs_python', ['pony.orm.sqltranslation:JsonMixin.contains', 'pony.orm.sqltranslation:JsonMixin.len', 'pony.orm.sqltranslation:JsonMixin.nonzero',
